@@ -15,6 +15,8 @@ Decided, on every path through one month of HybridLoad.process_month_loads:
   R07.4  48 h window: the two-day profile is [p + (day-1)*24 : +48] of the year prefixed with its last
          24 h, p starting at the prefix length and advancing by the month's hours; cooling uses the
          rejection series and cooling day, heating the extraction series and heating day
+  R07.7  each direction's duration is simulated from its own two-day profile, peak, average; stored under its own name
+  R07.8  duration = time at which the (peak - average) step response reaches the maximum of the nominal two-day response
   R07.6  peak and peak day come from the same month window: peak = max(window),
          day = floor(window.index(peak) / 24)
 
@@ -160,7 +162,133 @@ def check(prog: Program, tier: str) -> Result:
     _check_ipf(prog, res, ma)
     _check_two_day(prog, res)
     _check_peak_provenance(prog, res)
+    _check_duration_definition(prog, res)
     return res
+
+
+def _check_duration_definition(prog: Program, res: Result):
+    """R07.7 pairing of each direction's own data in find_peak_durations; R07.8 the duration is where the
+    peak-step response reaches the maximum of the nominal two-day response"""
+    q = f"{CLS}.find_peak_durations"
+    fi = prog.func(q)
+    res.analysed(q)
+    loops = [n for n in fi.node.body if isinstance(n, ast.For)]
+    if len(loops) != 1 or not isinstance(loops[0].target, ast.Name):
+        raise AnalysisError(f"{q}: month loop not found")
+    iv = loops[0].target.id
+    defs = {}
+    tuple_defs = {}
+    for s_ in ast.walk(loops[0]):
+        if isinstance(s_, ast.Assign) and len(s_.targets) == 1 and isinstance(s_.targets[0], ast.Name):
+            defs.setdefault(s_.targets[0].id, []).append(s_)
+        if isinstance(s_, ast.Assign) and len(s_.targets) == 1 and isinstance(s_.targets[0], ast.Tuple):
+            for e_ in s_.targets[0].elts:
+                if isinstance(e_, ast.Name):
+                    tuple_defs.setdefault(e_.id, []).append(s_)
+    calls = sorted([c for c in ast.walk(loops[0]) if isinstance(c, ast.Call) and attr_chain(c.func) == "self.perform_current_month_simulation"], key=lambda c: c.lineno)
+    if len(calls) != 2:
+        raise AnalysisError(f"{q}: expected two peak-duration simulations (cooling, heating)")
+    pcs = prog.func(f"{CLS}.perform_current_month_simulation")
+    from ..model import bind_args
+
+    def tags(expr_src: str) -> set:
+        out = set()
+        for t in ("_cl", "_hl"):
+            if t in expr_src:
+                out.add(t[1:])
+        return out
+
+    def resolve(node, before):
+        # textual closure of a local name through its latest definitions before the call
+        txt = ast.unparse(node)
+        for _ in range(4):
+            names = {n.id for n in ast.walk(ast.parse(txt, mode="eval")) if isinstance(n, ast.Name)}
+            rep = False
+            for nm in names:
+                ds = [d for d in defs.get(nm, []) if d.lineno < before]
+                if ds:
+                    txt = txt.replace(nm, "(" + ast.unparse(ds[-1].value) + ")")
+                    rep = True
+            if not rep:
+                break
+        return txt
+
+    for c, tag in zip(calls, ("cl", "hl")):
+        b = bind_args(pcs, c)
+        used = set()
+        per_arg = {}
+        for k, v in b.items():
+            t = tags(resolve(v, c.lineno))
+            per_arg[k] = sorted(t)
+            used |= t
+        ok = used == {tag} and all(per_arg.get(k) == [tag] for k in ("two_day_hourly_peak_load", "peak_load", "avg_load", "two_day_fluid_temps_pk", "two_day_fluid_temps_nm"))
+        res.ob("R07.7", f"{'cooling' if tag == 'cl' else 'heating'} duration is simulated from its own two-day profile, peak, average and temperature logs ({per_arg})", ok, prog.loc(fi, c))
+        if not ok:
+            res.violation("R07.7", f"pairing|{tag}|{sorted(per_arg.items())}", prog.loc(fi, c), q,
+                          f"the {'cooling' if tag == 'cl' else 'heating'} peak duration mixes data of the two directions: {per_arg}")
+        # stored under the same direction, for this month; absent peak -> sentinel
+        guard = next((n for n in ast.walk(loops[0]) if isinstance(n, ast.If) and any(c is x for x in ast.walk(n))), None)
+        gsrc = resolve(guard.test, guard.lineno) if guard is not None else ""
+        okg = guard is not None and tags(gsrc) == {tag} and ("!=0" in gsrc.replace(" ", "") or ">0" in gsrc.replace(" ", ""))
+        res.ob("R07.7", f"the {'cooling' if tag == 'cl' else 'heating'} simulation runs only for a non-zero {tag} peak", okg, prog.loc(fi, guard) if guard is not None else prog.loc(fi, c))
+        if not okg:
+            res.violation("R07.7", f"guard|{tag}|{gsrc[:60]}", prog.loc(fi, c), q, f"the {tag} duration simulation is guarded by '{gsrc[:80]}' instead of that direction's peak being non-zero")
+        # the first store into a duration array after this call (and before the next call) must be this direction's
+        nxt = min((c2.lineno for c2 in calls if c2.lineno > c.lineno), default=10 ** 9)
+        stores = sorted([s_ for s_ in ast.walk(loops[0]) if isinstance(s_, ast.Assign) and isinstance(s_.targets[0], ast.Subscript) and (attr_chain(s_.targets[0].value) or "").startswith("self.monthly_peak_")
+                         and (attr_chain(s_.targets[0].value) or "").endswith("_duration") and c.lineno < s_.lineno], key=lambda s_: s_.lineno)
+        stores = [s_ for s_ in stores if s_.lineno < nxt or tag == "hl"]
+        store = [s_ for s_ in stores if attr_chain(s_.targets[0].value) == f"self.monthly_peak_{tag}_duration" and ast.unparse(s_.targets[0].slice) == iv]
+        wrong = [s_ for s_ in stores if s_ not in store and (s_.lineno < nxt)]
+        oks = bool(store) and not wrong and isinstance(store[0].value, ast.Name) and any(any(c is x for x in ast.walk(d)) for d in defs.get(store[0].value.id, []) + tuple_defs.get(store[0].value.id, []))
+        res.ob("R07.7", f"its result is stored in monthly_peak_{tag}_duration[{iv}]", oks, prog.loc(fi, store[0]) if store else prog.loc(fi, c))
+        if not oks:
+            res.violation("R07.7", f"store|{tag}", prog.loc(fi, c), q, f"the simulated {tag} duration is not what is stored in monthly_peak_{tag}_duration[{iv}]")
+    # R07.8 definition
+    q = f"{CLS}.perform_current_month_simulation"
+    fi = prog.func(q)
+    res.analysed(q)
+    defs = {s_.targets[0].id: s_.value for s_ in ast.walk(fi.node) if isinstance(s_, ast.Assign) and len(s_.targets) == 1 and isinstance(s_.targets[0], ast.Name)}
+    sims = {k: v for k, v in defs.items() if isinstance(v, ast.Call) and attr_chain(v.func) == "self.simulate_hourly"}
+    sh = prog.func(f"{CLS}.simulate_hourly")
+    by_load = {}
+    for k, v in sims.items():
+        b = bind_args(sh, v)
+        by_load[ast.unparse(b.get("q"))] = (k, b)
+    ok = set(by_load) == {"q_peak", "q_nominal"}
+    if not ok:
+        raise AnalysisError(f"{q}: the two hourly simulations (q_peak, q_nominal) not found")
+    pk_name, nom_name = by_load["q_peak"][0], by_load["q_nominal"][0]
+    same_args = all(ast.unparse(by_load["q_peak"][1].get(a)) == ast.unparse(by_load["q_nominal"][1].get(a)) for a in ("hour_time", "g_sts", "resist_bh", "two_pi_k", "ts"))
+    res.ob("R07.8", "peak-step and nominal two-day responses are simulated with the same time axis, g-function, resistance and soil", same_args, prog.loc(fi, fi.node))
+    if not same_args:
+        res.violation("R07.8", "responses-different-models", prog.loc(fi, fi.node), q, "the peak-step and the nominal two-day responses are simulated with different parameters")
+    bq = by_load["q_peak"][1]
+    okm = ast.unparse(bq.get("g_sts")) == "g_sts" and ast.unparse(defs.get("g_sts")) == "self.radial_numerical.g_sts" and ast.unparse(defs.get("ts")) == "self.radial_numerical.t_s" \
+        and ast.unparse(defs.get("resist_bh_effective")) == "self.bhe.calc_effective_borehole_resistance()" and ast.unparse(defs.get("two_pi_k")).replace(" ", "") == "TWO_PI*self.bhe.soil.k"
+    res.ob("R07.8", "they use the short-time g-function and t_s of the radial model, Rb* of the borehole and 2 pi k_soil", okm, prog.loc(fi, fi.node))
+    if not okm:
+        res.violation("R07.8", "response-parameters", prog.loc(fi, fi.node), q, "the two-day responses no longer use radial_numerical.g_sts / t_s, the effective borehole resistance and 2 pi k_soil")
+    ht = defs.get("hour_time")
+    okh = ht is not None and ast.unparse(ht).replace(" ", "") in ("np.array(range(2*HRS_IN_DAY+1))", "np.arange(2*HRS_IN_DAY+1)", "np.arange(0,2*HRS_IN_DAY+1)")
+    res.ob("R07.8", f"the time axis is 0..48 h in hourly steps ({ast.unparse(ht) if ht is not None else '?'})", okh, prog.loc(fi, fi.node))
+    if not okh:
+        res.violation("R07.8", f"hour-axis|{ast.unparse(ht)[:50] if ht is not None else None}", prog.loc(fi, fi.node), q, f"the two-day time axis is {ast.unparse(ht) if ht is not None else '?'} instead of the 49 hourly points 0..48")
+    # duration = interp1d(peak response -> time)(max of nominal response), sentinel when the nominal response never rises
+    itp = [k for k, v in defs.items() if isinstance(v, ast.Call) and attr_chain(v.func) == "interp1d"]
+    okd = False
+    if len(itp) == 1:
+        v = defs[itp[0]]
+        okx = len(v.args) >= 2 and ast.unparse(v.args[0]) == pk_name and ast.unparse(v.args[1]) == "hour_time"
+        mx = next((k for k, d in defs.items() if isinstance(d, ast.Call) and attr_chain(d.func) == "max" and len(d.args) == 1 and ast.unparse(d.args[0]) == nom_name), None)
+        use = [n for n in ast.walk(fi.node) if isinstance(n, ast.Call) and isinstance(n.func, ast.Name) and n.func.id == itp[0] and len(n.args) == 1 and mx is not None and ast.unparse(n.args[0]) == mx]
+        grd = [n for n in ast.walk(fi.node) if isinstance(n, ast.If) and use and any(use[0] is x for b_ in n.body for x in ast.walk(b_))]
+        okgd = bool(grd) and mx is not None and ast.unparse(grd[0].test).replace(" ", "") in (f"{mx}>0.0", f"{mx}>0")
+        okd = okx and bool(use) and okgd
+    res.ob("R07.8", "duration = time at which the peak-step response equals max(nominal two-day response) (inverse interpolation), only if that maximum is positive", okd, prog.loc(fi, fi.node))
+    if not okd:
+        res.violation("R07.8", "duration-definition", prog.loc(fi, fi.node), q,
+                      "the peak duration is no longer the time at which the (peak - average) step response reaches the maximum of the peak-scaled two-day response (interp1d(peak response, hour)(max(nominal response)))")
 
 
 # ---------------------------------------------------------------------------
@@ -538,6 +666,14 @@ VARIANTS = [
                         warnings.warn(warn_msg_neg_timestep)
                     peak_last_avg_hour = last_avg_hour
                 # rest of month""")], "R07.1"),
+    Variant("heating duration simulated from the cooling two-day profile", "break",
+            [(GL, "            current_two_day_hl_load = [0.0] + self.two_day_hourly_peak_hl_loads[i]", "            current_two_day_hl_load = [0.0] + self.two_day_hourly_peak_cl_loads[i]")], "R07.7"),
+    Variant("duration read at the maximum of the PEAK response", "break",
+            [(GL, "        delta_t_fluid_nom_max = max(delta_t_fluid_nom)", "        delta_t_fluid_nom_max = max(delta_t_fluid_peak)")], "R07.8"),
+    Variant("inverse interpolation with swapped axes", "break",
+            [(GL, "            f = interp1d(delta_t_fluid_peak, hour_time, fill_value=\"extrapolate\")", "            f = interp1d(hour_time, delta_t_fluid_peak, fill_value=\"extrapolate\")")], "R07.8"),
+    Variant("heating duration stored in the cooling array", "break",
+            [(GL, "            # Set the monthly cooling load duration\n            self.monthly_peak_hl_duration[i] = peak_duration", "            # Set the monthly cooling load duration\n            self.monthly_peak_cl_duration[i] = peak_duration")], "R07.7"),
     Variant("HRS_IN_DAY written as literal 24 in the pulse start", "benign",
             [(GL, """                    + (self.monthly_peak_cl_day[i]) * HRS_IN_DAY
                     + 12
